@@ -667,6 +667,7 @@ class ConvexPolyhedron(Polyhedron):
             principal_axes[:, 0] *= -1
         self._vertices = np.dot(self._vertices, principal_axes)
         self._sort_simplices()
+        self._find_equations()
 
     @property
     def mean_curvature(self):
